@@ -30,7 +30,7 @@ def parse_out(o):
         a["gen"] = int(m.group(2))
         a["ok"] = m.group(3) == "ok"
         atts.append(a)
-    sm = re.match(r"reg\[(.*) e=(\d+)\] wait=(\S+) un=(\d) au=(\d) ne=(\d+) st=(\d+) dn=(\S+) rn=(\S+) fail=(\d+) ln=(\S+) ls=(\S+) rp=(\d+) up=(\d)", st)
+    sm = re.match(r"reg\[(.*) e=(\d+)\] wait=(\S+) un=(\d) au=(\d) ne=(\d+) st=(\d+) dn=(\S+) rn=(\S+) fail=(\d+) ln=(\S+) ls=(\S+) rp=(\d+) up=(\d) md=(\d)", st)
     if not sm:
         raise ValueError("bad state: " + st)
     state = dict(info=parse_info(sm.group(1)), epoch=int(sm.group(2)), wait=sm.group(3), unstable=sm.group(4) == "1",
@@ -395,7 +395,8 @@ def run(ctx):
              "B (rebalanceNamespace), K/P (MarkNodeAsRemoving/processRemovingNodes), the learner placement driver on the same register: "
              "LC (doCheckNamespacesForLearner), LS (start/stop key), LA/LL/LR/LX (bare addNsLearnerToNode/updateNsLearnerLeader/"
              "removeNsLearnerFromNode/removeNsAllLearners), learner nodes joining/leaving in N; G (ChangeNamespaceMetaParam: replication "
-             "factor 0..6), U (SetClusterUpgradeState); Z = namespace creation on an empty register "
+             "factor 0..6), U (SetClusterUpgradeState), Y (register health: healthy / etcd unreachable with the cache serving / "
+             "all reads and updates failing); Z = namespace creation on an empty register "
              "(1..6 partitions). evaluations = events compared with the model; "
              "non-trivial = sequence with at least one register update attempt, distinct by hash of its event lines.",
         histogram=hist_all,
